@@ -553,7 +553,7 @@ CLOSERS = {"RIGHT_PAREN", "RIGHT_BRACKET", "RIGHT_BRACE"}
 def nearmiss_case(draw, leaves):
     c = draw(sentence_case(leaves))
     toks = rp.tokenize(c["base"])
-    kind = draw(st.sampled_from(["append", "append", "drop_closer", "second_tilde", "nested_tilde", "repeated_with_level", "juxtapose", "drop_operand", "unclosed_quote", "insert"]))
+    kind = draw(st.sampled_from(["append", "append", "drop_closer", "second_tilde", "nested_tilde", "repeated_with_level", "keyword_with_level", "juxtapose", "drop_operand", "unclosed_quote", "insert"]))
     lex = [t[1] for t in toks]
     if kind == "append":
         lex = lex + [draw(st.sampled_from(SIGMA + ["z", "'s'", "`q`", "%", "!", ".", "//"]))]
@@ -581,6 +581,12 @@ def nearmiss_case(draw, leaves):
             lex = lex[: k + 1] + ["("] + lex[k + 1:] + ["~", "v", ")"]
         if "~" not in lex[: max(1, lex.index("(") if "(" in lex else len(lex))]:
             lex = ["y", "~"] + lex
+    elif kind == "keyword_with_level":
+        # f(x, k[a]=1): a level written on the name of a keyword argument
+        call = draw(st.sampled_from(["f(x, k[a]=1)", "f(k['a']=x)", "np.log(x, base[b]=2)", "f(x, k=2, j[lo]=z)"]))
+        if "~" not in lex:
+            lex = ["y", "~"] + lex
+        lex = lex + ["+"] + [t_[1] for t_ in rp.tokenize(call)]
     elif kind == "repeated_with_level":
         # a variable that already occurs, written once more with a level: v[level] is only the whole response
         idx = [i for i, t in enumerate(toks) if t[0] == "IDENTIFIER" and (i + 1 == len(toks) or toks[i + 1][0] not in ("LEFT_PAREN", "LEFT_BRACKET"))]
